@@ -43,6 +43,7 @@ def jobs(tier):
     J("multi", 2, dict(delims="one", cutoff=2), shard=5)
     J("multi", 1, dict(delims="default", cutoff=None, converter=True))
     J("multi", 2, dict(delims="one", cutoff=2, converter=True), 900, 6)
+    J("multi", 1, dict(delims="one", cutoff=None, converter="grown"))
     J("many", 11, dict(delims="default"))
     T_ = ("thorough",)
     J("many", 25, dict(delims="one"), 1200, None, T_)
@@ -121,7 +122,10 @@ def build(job):
         if params.get("converter"):
             recs = mk_recs(eng, [[0, 1]], tag="c")
             assume_strict(eng, recs)
-            pre = api.Converter([api.Record(**r.kwargs()) for r in recs])
+            if params["converter"] == "grown":
+                pre = api.Converter([api.Record(prefix=recs[0].prefix, uri_prefix=recs[0].uri_prefix)])
+            else:
+                pre = api.Converter([api.Record(**r.kwargs()) for r in recs])
         uris, learned = [], []      # learned: (prefix term as str-like, tail) per contributing URI
         for i in range(m):
             if eng.flag(f"learnable{i}"):
@@ -141,6 +145,10 @@ def build(job):
                 uris.append(u)
         if params.get("maxlen"):
             eng.assume(And([z3.Length(_s(u)) <= params["maxlen"] for u in uris]))
+        if params.get("converter") == "grown":
+            # the supplied converter has been used for a discovery over the same URIs before and has since gained a URI prefix
+            disc.discover(list(uris), delimiters=DELIMS[params["delims"]], cutoff=cutoff, converter=pre)
+            pre.add_prefix(recs[0].prefix, recs[0].usyn[0], merge=True)
         c = disc.discover(uris, delimiters=DELIMS[params["delims"]], cutoff=cutoff, converter=pre)
         # order-free oracle: distinct learned prefixes with >= cutoff distinct tails
         expected = []
